@@ -182,14 +182,31 @@ theorem optimumIdler_ok {i : IdlerIn ℝ} {o : IdlerOut ℝ} (h : optimumIdler i
     rw [optimumIdler_of_lt hlt] at h
     exact ⟨hlt, by injection h with h; exact h.symm⟩
 
-/-- forward signal, no counter-propagation: the raw idler angle is `arcsin (n_s sin θ_s / √arg)` -/
-theorem idlerThetaRaw_forward {i : IdlerIn ℝ} (hcp : i.cp = false) (h0 : 0 ≤ i.thetaS)
+/-- forward signal (`|θ_s| < π/2`), no counter-propagation: the raw idler angle is
+`arcsin (n_s sin θ_s / √arg)` -/
+theorem idlerThetaRaw_forward {i : IdlerIn ℝ} (hcp : i.cp = false) (h0 : -(π / 2) < i.thetaS)
     (h1 : i.thetaS < π / 2) :
     idlerThetaRaw i = Real.arcsin (i.ns * Real.sin i.thetaS /
       Real.sqrt (idlerArg i.ns i.np i.ls i.lp i.thetaS i.pp)) := by
-  have hcos : 0 < Real.cos i.thetaS :=
-    Real.cos_pos_of_mem_Ioo ⟨by linarith [Real.pi_pos], h1⟩
-  simp [idlerThetaRaw, hcp, tsin, tcos, tasin, tsqrt, lit_zero, lit_one, not_lt.mpr h0,
-    not_lt.mpr hcos.le]
+  have hcos : 0 < Real.cos i.thetaS := Real.cos_pos_of_mem_Ioo ⟨h0, h1⟩
+  simp [idlerThetaRaw, hcp, tsin, tcos, tasin, tsqrt, lit_zero, not_lt.mpr hcos.le]
+
+theorem remEuclidTau_of_neg {x : ℝ} (h0 : -(2 * π) < x) (h1 : x < 0) :
+    remEuclidTau x = x + 2 * π := by
+  have hpi := Real.pi_pos
+  unfold remEuclidTau
+  simp only [twoPi_eq, lit_zero]
+  rw [if_neg (fun h => h.1 h1), if_neg (fun h => h.1 (by linarith)), if_pos ⟨h0, h1⟩]
+
+theorem normalizeAngleSigned_of_mem' {x : ℝ} (h0 : -π < x) (h1 : x ≤ π) :
+    normalizeAngleSigned x = x := by
+  have hpi := Real.pi_pos
+  by_cases hx : 0 ≤ x
+  · exact normalizeAngleSigned_of_mem hx h1
+  · have hx' : x < 0 := not_le.mp hx
+    unfold normalizeAngleSigned
+    simp only [tpi, twoPi_eq]
+    rw [remEuclidTau_of_neg (by linarith) hx', if_pos (by linarith)]
+    ring
 
 end Spdc.DeltaK
